@@ -15,13 +15,13 @@ open RQ
 
 /-- the components of a safe key are plain names -/
 theorem C19_key_below (name : Bytes) (k : Key) (h : safeKey name = some k) :
-    ∀ c ∈ k, c ≠ [] ∧ c ≠ [46] ∧ c ≠ [46, 46] ∧ (47 : UInt8) ∉ c := by
-  sorry
+    ∀ c ∈ k, c ≠ [] ∧ c ≠ [46] ∧ c ≠ [46, 46] ∧ (47 : UInt8) ∉ c :=
+  fun _ hc => components_normal (safeKey_mem h hc)
 
 /-- a name with a root component (absolute path) or a `..` component, or an empty name, has no key -/
 theorem C19_unsafe (name : Bytes) (h : name = [] ∨ Comp.root ∈ components name ∨ Comp.parent ∈ components name) :
-    safeKey name = none := by
-  sorry
+    safeKey name = none :=
+  safeKey_unsafe name h
 
 /-- **C19 (refusal)**: a file patch one of whose names is unsafe is refused by `apply_one_file_patch`
 with an error, before any file is looked at -/
@@ -34,7 +34,23 @@ theorem C19_patch_refused (st : St) (fs : FS) (cfg : Cfg) (index : Nat) (entry :
     ∀ (fps : List Parse.PFilePatch) (b : Bool),
       (∃ fp ∈ fps, namesSafe fp = false) →
       (∃ e, applyFilePatches st fs cfg index entry fps b = .error e) := by
-  sorry
+  intro fps
+  induction fps generalizing st with
+  | nil => intro b h; simp at h
+  | cons fp fps ih =>
+    intro b h
+    unfold applyFilePatches
+    cases ha : applyOne st fs cfg index entry fp with
+    | error e => exact ⟨e, rfl⟩
+    | ok r =>
+      obtain ⟨st', ok⟩ := r
+      simp only []
+      obtain ⟨fp', hmem, hns⟩ := h
+      rcases List.mem_cons.mp hmem with e | hm
+      · subst e
+        rw [C19_refuse st fs cfg index entry fp' hns] at ha
+        cases ha
+      · exact ih st' _ ⟨fp', hm, hns⟩
 
 /-! ### non-vacuity -/
 example : safeKey [46, 46, 47, 120] = none ∧ safeKey [47, 120] = none ∧ safeKey [] = none ∧
